@@ -44,8 +44,10 @@ SHARD_TIMEOUT = {'quick': 900, 'thorough': 3000}
 BASE = [('10.0.%d.0/24' % i, '192.0.2.1', i % 5) for i in range(8)]
 
 
-def conf(routes, hold=90, api=True, extra=''):
-    c = {'hold': hold, 'families': [(1, 1)], 'adjout': True, 'api': api, 'group_updates': False, 'route_texts': [f'route {p} next-hop {nh} med {m};' for p, nh, m in routes], 'extra_body': extra}
+def conf(routes, hold=90, api=True, extra='', adjout=True):
+    c = {'hold': hold, 'families': [(1, 1)], 'adjout': adjout, 'api': api, 'group_updates': False, 'route_texts': [f'route {p} next-hop {nh} med {m};' for p, nh, m in routes], 'extra_body': extra}
+    if not adjout:
+        c['refresh'] = False  # the route refresh capability switches the Adj-RIB-Out cache back on
     return c
 
 
@@ -69,15 +71,24 @@ def change(r: random.Random, kind: str):
     elif kind == 'neighbor-param':
         hold_new = 60
         new[6] = (new[6][0], new[6][1], 55)
+    elif kind == 'param+remove':
+        # one reload which changes a session parameter (the session is re-established) and drops routes
+        hold_new = 60
+        new = [x for i, x in enumerate(new) if i not in (2, 5)]
+    elif kind == 'param+mixed':
+        hold_new = 75
+        new = [x for i, x in enumerate(new) if i != 7]
+        new[0] = (new[0][0], '192.0.2.77', 44)
+        new.append(('10.9.4.0/24', '192.0.2.1', 6))
     elif kind == 'same':
         pass
     return old, new, hold_new
 
 
-def success_case(r, kind, state, api_mode):
+def success_case(r, kind, state, api_mode, adjout=True):
     old, new, hold_new = change(r, kind)
-    cfg = conf(old)
-    newc = dict(conf(new, hold=hold_new))
+    cfg = conf(old, adjout=adjout)
+    newc = dict(conf(new, hold=hold_new, adjout=adjout))
     new_text = scen.config_text(newc, 0).replace('connect 0;', 'connect @PORT@;')
     api_routes = []
     if api_mode == 'some':
@@ -90,7 +101,7 @@ def success_case(r, kind, state, api_mode):
         for p, nh, m in api_routes:
             steps.append(['api', f'peer * announce route {p} next-hop {nh} med {m}'])
         steps += [['sleep', 0.5], ['wait_quiet', 1.0, 20.0], ['snapshot', 'before'], ['mark', 'reload'], ['reload', new_text], ['sleep', 0.5], ['wait_quiet', 2.0, 20.0]]
-        if kind == 'neighbor-param':
+        if hold_new != 90:
             steps += [['accept', 40.0], ['mark', 'second'], ['establish'], ['wait_quiet', 2.0, 20.0]]
         steps += [['snapshot', 'after'], ['mark', 'end']]
     elif state == 'down':
@@ -99,7 +110,7 @@ def success_case(r, kind, state, api_mode):
         for p, nh, m in api_routes:
             steps.append(['api', f'peer * announce route {p} next-hop {nh} med {m}'])
         steps += [['sleep', 0.5], ['wait_quiet', 1.0, 20.0], ['policy', 'reset'], ['eof'], ['sleep', 1.0], ['snapshot', 'before'], ['mark', 'reload'], ['reload', new_text], ['sleep', 2.0], ['policy', 'accept'], ['accept', 60.0], ['mark', 'second'], ['establish'], ['wait_quiet', 2.0, 20.0], ['snapshot', 'after'], ['mark', 'end']]
-    return {'config': cfg, 'steps': steps, 'vtimeout': 400.0, 'wall': 120.0, 'quantum': 0.0005, 'kind': kind, 'state': state, 'api_mode': api_mode, 'old': old, 'new': new, 'api_routes': api_routes, 'expect': 'success'}
+    return {'config': cfg, 'steps': steps, 'vtimeout': 400.0, 'wall': 120.0, 'quantum': 0.0005, 'kind': kind, 'state': state, 'api_mode': api_mode, 'old': old, 'new': new, 'api_routes': api_routes, 'expect': 'success', 'adjout': adjout, 'reestablish': hold_new != 90}
 
 
 def broken_variants(text: str):
@@ -149,12 +160,16 @@ def failure_cases(r, tier):
 def all_cases(tier, seed):
     r = random.Random(seed)
     cases = []
-    for kind in ('remove', 'add', 'attr-changed', 'nexthop-changed', 'mixed', 'neighbor-param', 'same'):
+    for kind in ('remove', 'add', 'attr-changed', 'nexthop-changed', 'mixed', 'neighbor-param', 'param+remove', 'param+mixed', 'same'):
         for state in ('up', 'down'):
             for api_mode in ('none', 'some', 'colliding'):
                 if tier == 'quick' and api_mode == 'colliding' and kind not in ('attr-changed', 'mixed'):
                     continue
                 cases.append(success_case(r, kind, state, api_mode))
+    # without the Adj-RIB-Out cache (adj-rib-out false) the difference must still reach the peer
+    for kind in ('remove', 'mixed', 'attr-changed', 'add', 'param+remove'):
+        for state in ('up', 'down'):
+            cases.append(success_case(r, kind, state, 'none' if kind != 'mixed' else 'some', adjout=False))
     fc = failure_cases(r, tier)
     if tier == 'quick':
         # every fault kind, a spread of lines
@@ -198,8 +213,8 @@ def table_from(sess_rx, t0):
 
 
 def judge_success(res, case, rec):
-    cls = f'{case["kind"]}:{case["state"]}:{case["api_mode"]}'
-    wit = {k: case[k] for k in ('kind', 'state', 'api_mode', 'old', 'new', 'api_routes')}
+    cls = f'{case["kind"]}:{case["state"]}:{case["api_mode"]}' + ('' if case.get('adjout', True) else ':no-adj-rib-out')
+    wit = {k: case[k] for k in ('kind', 'state', 'api_mode', 'old', 'new', 'api_routes', 'adjout')}
     wit['notes'] = rec['notes']
     marks = {e['name']: e for e in rec['events'] if e['kind'] == 'mark'}
     snaps = {e['name']: e['snap'] for e in rec['events'] if e['kind'] == 'snapshot'}
@@ -228,9 +243,15 @@ def judge_success(res, case, rec):
     else:
         sid = 0
         got, n = table_from(rec['sessions'][0]['rx'], 0.0)
-        if rec['sessions'][0]['eof_at'] is not None and case['kind'] != 'neighbor-param':
+        if rec['sessions'][0]['eof_at'] is not None and not case.get('reestablish'):
             res.violation(f'C17/session-lost-on-reload:{case["kind"]}', 'the established session was closed by a reload which does not change the neighbor', wit, cls)
             return
+    if not case.get('adjout', True) and 'second' in marks:
+        # without an Adj-RIB-Out nothing remembers the API routes across a session loss: only the configuration is judged
+        for p, nh, m in case['api_routes']:
+            if canon(p) not in {canon(x[0]) for x in case['new']}:
+                want.pop(canon(p), None)
+                got.pop(canon(p), None)
     wit['peer_table'] = sorted(got.items())[:20]
     wit['expected_table'] = sorted(want.items())[:20]
     missing = sorted(set(want) - set(got))
@@ -255,6 +276,7 @@ def judge_success(res, case, rec):
     res.ok(cls, (case['kind'], case['state'], case['api_mode']))
     res.ok('change:' + case['kind'])
     res.ok('state:' + case['state'])
+    res.ok('adj-rib-out:' + str(case.get('adjout', True)).lower())
 
 
 def judge_failure(res, case, rec):
@@ -347,6 +369,6 @@ def run_shard(desc):
 
 
 REQUIRED_CLASSES = {
-    'quick': ['change:remove', 'change:add', 'change:same', 'state:up', 'state:down', 'fault-kind:line', 'fault-kind:file-removed'],
+    'quick': ['change:remove', 'change:add', 'change:same', 'change:param+remove', 'adj-rib-out:false', 'state:up', 'state:down', 'fault-kind:line', 'fault-kind:file-removed'],
 }
 REQUIRED_CLASSES['thorough'] = REQUIRED_CLASSES['quick']
